@@ -16,9 +16,10 @@ def showLabels (l : Option (List Rat)) : String :=
 
 def parseCfg (s : String) : Option Cfg :=
   match s.toList with
-  | [a, b, c] =>
-    if [a, b, c].all (fun ch => ch == '0' || ch == '1') then
-      some { simBoundInclusive := a == '1', plotBoundInclusive := b == '1', stepClockNormalised := c == '1' }
+  | [a, b, c, d] =>
+    if [a, b, c, d].all (fun ch => ch == '0' || ch == '1') then
+      some { simBoundInclusive := a == '1', plotBoundInclusive := b == '1', stepClockNormalised := c == '1',
+             sessionOriginEffective := d == '1' }
     else none
   | _ => none
 
@@ -71,6 +72,16 @@ def stepLine (line : String) : String :=
       let stopped := List.replicate (n - clocks.length) "stop"
       ";".intercalate (per ++ stopped)
     | _, _, _, _, _ => "bad-op"
+  | ["sessiona", c, a, s, e, d, n] =>
+    -- as `session`, begun with the starttime ARGUMENT a (the scenario starts at s)
+    match parseCfg c, parseDec a, parseDec s, parseDec e, parseDec d, n.toNat? with
+    | some c, some a, some s, some e, some d, some n =>
+      if d ≤ 0 then "bad-op" else
+      let clocks := sessionClocksA c id a s e d n
+      let per := clocks.map fun ck => showLabels (sessionStepKeysC c id FUEL d ck)
+      let stopped := List.replicate (n - clocks.length) "stop"
+      ";".intercalate (per ++ stopped)
+    | _, _, _, _, _, _ => "bad-op"
   | ["key", s, d, h] =>
     -- memo key of the double with bit pattern h on the grid (s, d)
     match parseDec s, parseDec d, (parseHex h).bind ratOfBits with
